@@ -40,6 +40,7 @@ def run(ctx):
     statuslib.run_property(ctx, 'C04', n_random, exh_len=(3 if quick and ctx.boost == 1 else 4 if quick else 5),
                            macro_len=(3 if quick and ctx.boost == 1 else 4),
                            shared_len=(3 if quick and ctx.boost == 1 else 4),
+                           utd_len=(3 if quick and ctx.boost == 1 else 4),
                            parallel_share=0.15, n_info=(10 if quick else 100))
 
 
